@@ -32,8 +32,13 @@ use vh_engine::{Check, Known, Section, Verdict};
 const BOUND: usize = 3;
 
 static INFRA: Mutex<Vec<String>> = Mutex::new(Vec::new());
+/// Every hand-over time-out costs a minute: after a few of them the remaining cases are
+/// skipped (the run ends with exit 2 anyway).
+static INFRA_COUNT: AtomicUsize = AtomicUsize::new(0);
+const INFRA_LIMIT: usize = 3;
 
 fn infra(msg: String) {
+    INFRA_COUNT.fetch_add(1, Ordering::Relaxed);
     let mut g = INFRA.lock().unwrap_or_else(|e| e.into_inner());
     if g.len() < 20 {
         g.push(msg);
@@ -191,6 +196,9 @@ fn candidate_keys() -> Vec<String> {
 /// their narrow key. Known-open keys are reported through `known_hits` so that
 /// a second, unknown failure of the same run is not hidden.
 fn check_case(case: &Case, known: &Known, known_keys: &[String]) -> Verdict {
+    if INFRA_COUNT.load(Ordering::Relaxed) >= INFRA_LIMIT {
+        return Verdict::pass().class("skipped-after-infrastructure-trouble");
+    }
     let run = match run_case(case) {
         Ok(r) => r,
         Err(e) => {
@@ -319,7 +327,8 @@ fn dfs_program(p: &Program, known: &Known, known_keys: &[String], st: &mut DfsSt
     let mut stack: Vec<(Vec<u8>, usize)> = vec![(Vec::new(), 0)];
     let mut schedules = 0u64;
     while let Some((prefix, pre)) = stack.pop() {
-        if stop.load(Ordering::Relaxed) {
+        if stop.load(Ordering::Relaxed) || INFRA_COUNT.load(Ordering::Relaxed) >= INFRA_LIMIT {
+            stop.store(true, Ordering::Relaxed);
             return;
         }
         let case = Case { sys: p.sys, cfg: Cfg::roomy(), setup: p.setup.clone(), tasks: p.tasks.clone(), schedule: prefix.clone() };
